@@ -741,6 +741,28 @@ type scripted struct {
 	headSeen   bool
 	flood      chan struct{}
 	errBodyMax atomic.Int64 // most bytes the client read from the body of a non-2xx answer
+	bodies     []*heldBody
+}
+
+// heldBody tracks whether the client released a response body: read it to its end or closed it. A body
+// that is neither keeps its connection checked out for good.
+type heldBody struct {
+	io.ReadCloser
+	what     string
+	released atomic.Bool
+}
+
+func (b *heldBody) Read(p []byte) (int, error) {
+	n, err := b.ReadCloser.Read(p)
+	if err != nil {
+		b.released.Store(true)
+	}
+	return n, err
+}
+
+func (b *heldBody) Close() error {
+	b.released.Store(true)
+	return b.ReadCloser.Close()
 }
 
 type countingBody struct {
@@ -807,6 +829,13 @@ func (t *scripted) RoundTrip(req *http.Request) (*http.Response, error) {
 	note(fmt.Sprint(resp.StatusCode))
 	if resp.StatusCode/100 != 2 && resp.Body != nil && resp.Body != http.NoBody {
 		resp.Body = &countingBody{ReadCloser: resp.Body, max: &t.errBodyMax}
+	}
+	if resp.Body != nil && resp.Body != http.NoBody {
+		hb := &heldBody{ReadCloser: resp.Body, what: fmt.Sprintf("response %d (%s %s -> %d)", i+1, req.Method, req.URL.Path, resp.StatusCode)}
+		resp.Body = hb
+		t.mu.Lock()
+		t.bodies = append(t.bodies, hb)
+		t.mu.Unlock()
 	}
 	return resp, nil
 }
@@ -1554,6 +1583,23 @@ func (h *harness) exec(cd *caseDef, st *stats) {
 	}
 	if m := t.errBodyMax.Load(); m > st.errBodyMax {
 		st.errBodyMax = m
+	}
+	// every response body the client was handed has been let go of (read to its end, or closed) now that
+	// the operation and everything it returned are finished: a body still held keeps its connection, and
+	// with a bounded pool (http.Transport.MaxConnsPerHost) a later operation then waits for ever - it
+	// returns neither a result nor an error
+	t.mu.Lock()
+	held := append([]*heldBody(nil), t.bodies...)
+	t.mu.Unlock()
+	for _, hb := range held {
+		st.add("response_bodies_tracked", 1)
+		if !hb.released.Load() {
+			w := h.witness(cd, x)
+			w["held"] = hb.what
+			h.run.Violation("connection-held/"+op, fmt.Sprintf("%s has returned (and what it returned was read and closed), but the body of %s was neither read to its end nor closed", op, hb.what), w)
+			st.add("response_bodies_held", 1)
+			break
+		}
 	}
 	t.mu.Lock()
 	for _, s := range t.served {
